@@ -1367,4 +1367,221 @@ theorem cacheBound_empty (N : Nat) : CacheBound N St.empty := by
 
 end bound
 
+/-! ## 7. `returned_in_bailiwick` -/
+
+/-- a record has passed the bailiwick filter of some recorded `lookup` call -/
+def Prov (st : St) (x : Record) : Prop := ∃ a ∈ st.asked, isSubzone a.2.1 x.name = true
+
+/-- the log of `lookup` calls only grows -/
+theorem askedMem_stable (cfg : Config) (net : Net) (a : Name × Name × Query) :
+    Stable cfg net (fun st => a ∈ st.asked) (fun _ => True) where
+  root := trivial
+  cached := fun _ _ _ _ _ => trivial
+  fresh := fun _ _ _ => trivial
+  rezone := fun _ _ _ => trivial
+  poolLookup := by
+    intro st pool q h _
+    rw [(poolLookup_frame cfg net pool q st).2.2.1]; exact h
+  lookup := by
+    intro st pool q zone h _
+    rw [(lookup_frame cfg net q zone pool st).2.2.2.1]; exact List.mem_cons_of_mem _ h
+  nsPut := fun st z p h _ => h
+  cnames := fun st n h => h
+
+section returned
+variable {cfg : Config} {net : Net}
+
+theorem rcGet_mem {c : List (Query × Except Err Response)} {q : Query} {v : Except Err Response}
+    (h : rcGet c q = some v) : ∃ k, (k, v) ∈ c := by
+  unfold rcGet at h
+  simp only [Option.map_eq_some_iff] at h
+  obtain ⟨e, he, rfl⟩ := h
+  exact ⟨e.1, List.mem_of_find?_eq_some he⟩
+
+theorem prov_of_clean {st : St} (h : CacheClean st) {q : Query} {r : Response}
+    (hg : rcGet st.rcache q = some (.ok r)) : ∀ x ∈ r.all, Prov st x := by
+  obtain ⟨k, hk⟩ := rcGet_mem hg
+  obtain ⟨a, ha, _, hx⟩ := h k r hk
+  exact fun x hxr => ⟨a, ha, hx x hxr⟩
+
+theorem answerQuery_ret (q : Query) (pool : Pool) (st : St) (h : CacheClean st) (r : Response)
+    (hr : (answerQuery cfg net q pool st).2 = .ok r) :
+    ∀ x ∈ r.all, Prov (answerQuery cfg net q pool st).1 x := by
+  have hl := lookup_frame cfg net q pool.zone pool st
+  have key : ∀ r, (lookup cfg net q pool.zone pool st).2 = .ok r →
+      ∀ x ∈ r.all, Prov (lookup cfg net q pool.zone pool st).1 x := by
+    intro r hr x hx
+    refine ⟨(pool.zone, pool.zone, q), ?_, (hl.2.2.2.2.2.2.2 r hr).1 x hx⟩
+    rw [hl.2.2.2.1]; simp
+  unfold answerQuery at hr ⊢
+  split at hr
+  · cases hr
+  · rename_i r0 hg
+    split at hr
+    · rename_i haa
+      cases hr
+      simp only [haa, ↓reduceIte]
+      exact prov_of_clean h hg
+    · rename_i haa
+      simp only [haa]
+      exact key r hr
+  · exact key r hr
+
+/-- what the loops need to know about the recursive call of `resolve` -/
+def ResRet (rec : ResRec) : Prop :=
+  (∀ a, ResRecOK (fun st => a ∈ st.asked) rec) ∧ ResRecOK CacheClean rec ∧
+    ∀ q d st, CacheClean st → ∀ r, (rec q d st).2 = .ok r → ∀ x ∈ r.all, Prov (rec q d st).1 x
+
+theorem prov_mono {st st' : St} (h : ∀ a, a ∈ st.asked → a ∈ st'.asked) {x : Record}
+    (hx : Prov st x) : Prov st' x := by
+  obtain ⟨a, ha, hz⟩ := hx
+  exact ⟨a, h a ha, hz⟩
+
+theorem chaseLoop_ret {rec : ResRec} (hrec : ResRet rec) (resp : Response) (qtype depth : Nat) :
+    ∀ (rs chain : List Record) (st : St), CacheClean st → (∀ x ∈ chain, Prov st x) →
+      ∀ c, (chaseLoop rec resp qtype depth rs chain st).2 = .ok c →
+        ∀ x ∈ c, Prov (chaseLoop rec resp qtype depth rs chain st).1 x := by
+  intro rs
+  induction rs with
+  | nil =>
+    intro chain st _ hch c hc x hx
+    simp only [chaseLoop] at hc ⊢
+    cases hc; exact hch x hx
+  | cons r rs ih =>
+    intro chain st h hch c hc
+    unfold chaseLoop at hc ⊢
+    split at hc
+    · rename_i hnone
+      try simp only [hnone]
+      exact ih chain st h hch c hc
+    · rename_i target hsome
+      try simp only [hsome]
+      split at hc
+      · rename_i hany
+        simp only [hany, ↓reduceIte]
+        exact ih chain st h hch c hc
+      · rename_i hany
+        simp only [hany]
+        dsimp only at hc ⊢
+        split at hc
+        · cases hc
+        · rename_i hle
+          simp only [hle, ↓reduceIte]
+          have hst : CacheClean { st with cnames := st.cnames + 1 } := h
+          have hmono := fun a => hrec.1 a ⟨target, qtype⟩ depth { st with cnames := st.cnames + 1 }
+          have hcl := hrec.2.1 ⟨target, qtype⟩ depth _ hst
+          have hret := hrec.2.2 ⟨target, qtype⟩ depth _ hst
+          split at hc
+          · cases hc
+          · rename_i st1 r' heq
+            rw [heq] at hmono hcl hret
+            try simp only [heq]
+            refine ih _ st1 hcl ?_ c hc
+            intro x hx
+            simp only [List.mem_append, List.mem_filter] at hx
+            rcases hx with hx | hx
+            · exact prov_mono (fun a ha => hmono a ha) (hch x hx)
+            · exact hret r' rfl x (by simp [Response.all, hx.1])
+
+theorem resolveCnames_ret (S : ∀ a, Stable cfg net (fun st => a ∈ st.asked) (fun _ => True))
+    {rec : ResRec} (hrec : ResRet rec) (resp : Response) (q : Query) (depth : Nat) (st : St)
+    (h : CacheClean st) (hresp : ∀ x ∈ resp.all, Prov st x) (r : Response)
+    (hr : (resolveCnames cfg rec resp q depth st).2 = .ok r) :
+    ∀ x ∈ r.all, Prov (resolveCnames cfg rec resp q depth st).1 x := by
+  unfold resolveCnames at hr ⊢
+  split at hr
+  · rename_i hq; simp only [hq, ↓reduceIte]; cases hr; exact hresp
+  · rename_i hq
+    simp only [hq]
+    split at hr
+    · rename_i hc; simp only [hc, ↓reduceIte]; cases hr; exact hresp
+    · rename_i hc
+      simp only [hc]
+      dsimp only at hr ⊢
+      split at hr
+      · cases hr
+      · rename_i hlim
+        simp only [hlim]
+        have hmono := fun a => chaseLoop_stable (S a) (hrec.1 a) resp q.qtype (depth + 1) resp.all [] st
+        have hch := chaseLoop_ret hrec resp q.qtype (depth + 1) resp.all [] st h (by simp)
+        split at hr
+        · cases hr
+        · rename_i st1 chain heq
+          rw [heq] at hmono hch
+          try simp only [heq]
+          cases hr
+          intro x hx
+          simp only [Response.all, List.mem_append] at hx
+          have old : ∀ y ∈ resp.all, Prov st1 y := fun y hy => prov_mono (fun a ha => hmono a ha) (hresp y hy)
+          rcases hx with ((hx | hx) | hx) | hx
+          · exact old x (by simp [Response.all, hx])
+          · exact hch chain rfl x hx
+          · exact old x (by simp [Response.all, hx])
+          · exact old x (by simp [Response.all, hx])
+
+theorem resolveMiss_ret {rec : ResRec} (hrec : ResRet rec) (q : Query) (depth : Nat) (st : St)
+    (h : CacheClean st) (r : Response) (hr : (resolveMiss cfg net rec q depth st).2 = .ok r) :
+    ∀ x ∈ r.all, Prov (resolveMiss cfg net rec q depth st).1 x := by
+  have S := fun a => askedMem_stable cfg net a
+  unfold resolveMiss at hr ⊢
+  dsimp only at hr ⊢
+  have hn := nsPoolForName_stable (cacheClean_stable cfg net).toStableNs
+    (if q.qtype == T_DS then base q.name else q.name) depth st h
+  split at hr
+  · split at hr <;> cases hr
+  · rename_i st1 d1 pool heq
+    rw [heq] at hn
+    try simp only [heq]
+    have ha := answerQuery_stable (cacheClean_stable cfg net).toStableNs q pool trivial st1 hn.1
+    have hret := answerQuery_ret (cfg := cfg) (net := net) q pool st1 hn.1
+    split at hr
+    · cases hr
+    · rename_i st2 resp heq2
+      rw [heq2] at ha hret
+      try simp only [heq2]
+      exact resolveCnames_ret S hrec resp q d1 st2 ha (hret resp rfl) r hr
+
+theorem resolveFuel_ret : ∀ f, ResRet (resolveFuel cfg net f) := by
+  intro f
+  induction f with
+  | zero =>
+    exact ⟨fun a => resolveFuel_stable (askedMem_stable cfg net a) 0,
+      resolveFuel_stable (cacheClean_stable cfg net) 0, fun q d st _ r hr => by cases hr⟩
+  | succ f ih =>
+    refine ⟨fun a => resolveFuel_stable (askedMem_stable cfg net a) _,
+      resolveFuel_stable (cacheClean_stable cfg net) _, ?_⟩
+    intro q d st h r hr
+    unfold resolveFuel at hr ⊢
+    split at hr
+    · cases hr
+    · rename_i r0 hg
+      try simp only [hg]
+      split at hr
+      · rename_i haa
+        simp only [haa, ↓reduceIte]
+        exact resolveCnames_ret (fun a => askedMem_stable cfg net a) ih r0 q d st h
+          (prov_of_clean h hg) r hr
+      · rename_i haa
+        simp only [haa]
+        exact resolveMiss_ret ih q d st h r hr
+    · rename_i hg
+      try simp only [hg]
+      exact resolveMiss_ret ih q d st h r hr
+
+/-- **`returned_in_bailiwick`**: every record of a message returned by `Recursor::resolve` —
+from the network or from the cache, directly or through CNAME chasing — has passed the bailiwick
+filter of a recorded `lookup` call: its owner is inside the zone that call handed to the filter.
+For every network and every clean starting cache. -/
+theorem returned_in_bailiwick (cfg : Config) (net : Net) (q : Query) (st : St) (h : CacheClean st)
+    (r : Response) (hr : (resolve cfg net q st).2 = .ok r) :
+    ∀ x ∈ r.all, Prov (resolve cfg net q st).1 x := by
+  unfold resolve at hr ⊢
+  split at hr
+  · cases hr
+  · rename_i hf
+    simp only [hf]
+    exact (resolveFuel_ret (cfg := cfg) (net := net) _).2.2 q 0 { st with cnames := 0 } h r hr
+
+end returned
+
 end HickoryVerif.C19
